@@ -164,7 +164,8 @@ pub fn decode_echo(res: Result<scylla::response::query_result::QueryResult, scyl
                     match &all[0] {
                         Err(e) => EchoOutcome::Garbled(format!("row: {e}")),
                         Ok((id, payload)) => {
-                            if *payload == echo_payload(*id as u64) {
+                            // the payload must START with the id-dependent 16 bytes (the node may append more)
+                            if payload.starts_with(&echo_payload(*id as u64)) {
                                 EchoOutcome::Ok(*id as u64)
                             } else {
                                 EchoOutcome::Garbled(format!("payload of id {id} does not match"))
